@@ -81,6 +81,15 @@ Theorem C15_full_stack_all_messages_exact : forall (m : msg) (mav : bool) (d : d
   (dev_message d mav (render_msg m) = Val (op_message d mav us) <-> stray_separator m = false).
 Proof. exact contrib_refines_ops_all_iff. Qed.
 
+From VF Require Import Gen_Esr ErrTable Lexer Contrib_anybytes.
+
+(* ANY byte string: every register stays within its width (ESR/ESE/SRE < 256, the five fields of both register sets < 65536), so the masked read-outs are faithful in every reachable state *)
+Theorem C15_dev_message_preserves_regs_ok : forall d mav bytes d' out r,
+  regs_ok d -> dev_message d mav bytes = Val (d', out, r) -> regs_ok d'.
+Proof. exact dev_message_preserves_regs_ok. Qed.
+Theorem C15_dev_session_regs_ok : forall msgs d d', regs_ok d -> dev_session d msgs = Val d' -> regs_ok d'.
+Proof. exact dev_session_regs_ok. Qed.
+
 Print Assumptions C15_event_latched.
 Print Assumptions C15_event_read_clears.
 Print Assumptions C15_other_reads_pure.
@@ -92,3 +101,5 @@ Print Assumptions C15_full_stack_refines.
 Print Assumptions C15_full_stack_refines_iff.
 Print Assumptions C15_full_stack_all_messages.
 Print Assumptions C15_full_stack_all_messages_exact.
+Print Assumptions C15_dev_message_preserves_regs_ok.
+Print Assumptions C15_dev_session_regs_ok.
